@@ -60,7 +60,7 @@ def pg_record(pg) -> dict:
         "name": pg.name,
         "association": canon(pg.association),
         "property_group_type": canon(pg.property_group_type),
-        "properties": None if props is None else [str(p) for p in props],
+        "properties": [] if props is None else [str(p) for p in props],
     }
 
 
@@ -360,16 +360,20 @@ def _id_of(rec) -> str | None:
     return v if isinstance(v, str) else None
 
 
+import re as _re
+
+_PATH_RE = _re.compile(r"(Data|Groups|Objects)/\{[0-9a-fA-F-]{36}\}")
 KIND_OF_CONTAINER = {"Data": "Data", "Groups": "Groups", "Objects": "Objects"}
 TYPE_CONTAINER = {"Data": "Data types", "Groups": "Group types", "Objects": "Object types"}
 
 
-def validate_raw(raw: dict) -> list[tuple[str, str, str]]:
-    """Return [(rule, node-kind, detail)] for every broken layout rule."""
+def validate_raw(raw: dict) -> list[tuple[str, str, str, str]]:
+    """Return [(rule, node-kind, detail, subject path)] for every broken layout rule."""
     bad = []
 
     def add(rule, kind, detail):
-        bad.append((rule, kind, detail))
+        m = _PATH_RE.search(str(detail))
+        bad.append((rule, kind, detail, m.group(0) if m else ""))
 
     if len(raw.get("top", [])) != 1:
         add("V1.one-project", "project", f"top-level members {raw.get('top')}")
